@@ -216,10 +216,10 @@ def wf_py(apath):
     return None
 
 
-def traced_corpus(ctx, nprog, p_err=0.1):
+def traced_corpus(ctx, nprog, p_err=0.1, spec=None):
     """generated kernels x argument tuples that trace successfully -> [(src, args, actions)]"""
     from gen import tweezer_prog
-    S = tweezer_prog.harness_spec()
+    S = spec or tweezer_prog.harness_spec()
     out = []
     for i in range(nprog):
         prog = tweezer_prog.gen_prog(ctx.rng, p_err=p_err)
